@@ -551,6 +551,10 @@ def get_simulations(data: dict, verbose: bool = True) -> List[BaseSimulation]:
             method = data['ranges']['method']['name']
             method_params = data['ranges']['method']['parameters']
 
+        # The splitting method takes all the error rates in one simulation
+        if method == 'splitting':
+            instances = itertools.product(codes, error_models, decoder_range)
+
     elif 'runs' in data:
         print("Run", data['runs'])
         codes = [_parse_code_dict(run['code']) for run in data['runs']]
